@@ -168,7 +168,13 @@ public:
         if (vnorm < m_near_0)
             v.noalias() = v0 / v0norm;
         else
+        {
             v /= vnorm;
+            // If ||A * v0|| is so tiny that the squares of its entries are subnormal,
+            // vnorm itself is inaccurate: normalize the rescaled vector once more
+            if (vnorm * vnorm < m_near_0 / m_eps)
+                v /= m_op.norm(v);
+        }
 
         // Compute H and f
         Vector w(m_n);
